@@ -9,8 +9,9 @@ Line protocol for C07 (see harness/c07.py).  Every line is self-contained:
       answer: `<row;row;...>`  (rows are comma lists, `[]` for an empty matrix)
   opv <0|1> F= V= S= X=<rats> [B=...]      one AssembledJacobianOperator matvec  -> comma list
   opr <0|1> F= V= S= X=<rats> [B=...]      one rmatvec                          -> comma list
-  td <direct|adjoint|auto> F= V= Y=<couplings|[]|auto> R=<res:state,...|[]> S= [D=...] [B=...]
-      (Y=auto: the minimal couplings of the request computed from D=, as `mc`)
+  td <direct|adjoint|auto> F= V= Y=<couplings|[]|auto> R=<res:state,...|[]> S= [E=<name:exp,...>] [D=...] [B=...]
+      (Y=auto: the minimal couplings of the request computed from D=, as `mc`;
+       E=: the variables are rescaled by 2^exp, the model rescales the blocks B= itself: `scaledJac`)
       total derivatives; answer `f:x=<rows> f:x2=<rows> ...` (request order) or `E:singular`
   mc F= V= R=<res:state,...|[]> D=<name:in,in:out,out>|... minimal couplings of the request (sorted)
 -/
@@ -28,6 +29,12 @@ def parseBlock (s : String) : Option ((String × String) × Mat) :=
   match s.splitOn ":" with
   | [o, i, rows] => (parseRows rows).map (fun m => ((o, i), m))
   | _ => none
+
+def parseExps (s : String) : Option (List (String × Int)) :=
+  if s = "[]" then some [] else
+  (s.splitOn ",").mapM (fun t => match t.splitOn ":" with
+    | [n, k] => (parseInt? k).map (fun k => (n, k))
+    | _ => none)
 
 def parsePairs (s : String) : Option (List (String × String)) :=
   if s = "[]" then some [] else
@@ -76,7 +83,10 @@ def answer (line : String) : String :=
     | some f, some v, some ss, some bs =>
       let fs := parseStrList f
       let vs := parseStrList v
-      let jac := mkJac bs
+      let jac0 := mkJac bs
+      let jac := match (field rest "E").bind parseExps with
+        | some es => scaledJac (weightOf es) jac0
+        | none => jac0
       let sz := mkSz ss
       if op = "asm" then showMat (assemble jac sz (a == "1") fs vs)
       else if op = "opv" || op = "opr" then
